@@ -7,7 +7,7 @@ THEOREMS = ["ZI.Registry.C06_ro", "ZI.Registry.C06_subregistries", "ZI.Registry.
             "ZI.RO.C03_ro_eq_c3", "ZI.RO.roFull_valid", "ZI.Lookup.lookupRec_eq_first"]
 NOT_PROVED = ["C06_ro for the generation-checking flavour (VerifyingAdapterRegistry): that an unchanged generation snapshot implies unchanged ancestors' bases "
               "(needs a ghost history of bases per generation); carried: verifyingChanged_fresh — right after every change notification, incl. the one _verify issues, ro is fresh"]
-PROFILE = dict(weights=[4, 0.7, 1.5, 0.5, 4, 0.2, 0], queries=["lookup", "lookupAll", "subs", "ro"], nregs=(2, 6),
+PROFILE = dict(weights=[4, 0.7, 1.5, 0.5, 4, 0.2, 0], queries=["lookup", "lookupAll", "subs", "ro"], nregs=(2, 6), layered=0.3,
                regbases=[0, 1, 1, 1, 2, 2], extra_queries=2, arity=[0, 1, 1, 2], steps=(6, 30), steps_big=(10, 60), decls=False)
 
 
